@@ -242,7 +242,7 @@ def finish(mod, tier, seed, t0, tot, nontrivial, outcomes, violations, samples, 
         path = os.path.join(OUT, "replays", prop, dig + ".json")
         with open(path, "w") as f:
             json.dump(rec, f, indent=1, default=str)
-        if shown < 25:
+        if shown < int(os.environ.get("VERIF_SHOW", "25")):
             print("VIOLATION property=%s replay=%s" % (prop, path))
             print("  key=%s\n  what=%s\n  expected=%s\n  observed=%s" % (
                 k, v["what"], str(v.get("expected"))[:300], str(v.get("observed"))[:300]))
